@@ -313,6 +313,59 @@ fn main() {
             println!("HI|{}|{}|{}|{}|{}", fi, sp.name, reps * threads * 3, stale_left, reexec);
         }
     }
+    // RECENCY under contention (C07 / C18): an async LRU cache with an entry limit holding two keys; one thread alternates hits on
+    // them (ending with the second), another keeps the queue mutex busy with conditional invalidations that match nothing; once both
+    // have finished the queue must list the key hit last AFTER the other one — a hit that skips its recency refresh when the queue
+    // mutex is busy (try_lock) leaves the least recently used entry looking recent and the next overflow evicts the wrong one
+    {
+        let pool: Vec<_> = specs
+            .iter()
+            .filter(|s| s.is_async && !s.has_pred && s.ttl.is_none() && s.max_mem.is_none() && s.limit.map(|l| l >= 2).unwrap_or(false) && !s.is_result)
+            .filter(|s| s.policy == "lru")
+            .cloned()
+            .collect();
+        if let Some(sp) = pool.get(seed as usize % pool.len().max(1)).cloned() {
+            let fi = sp.idx;
+            let (k0, k1) = (corpus::KEYS[fi](0), corpus::KEYS[fi](1));
+            let reps = (rounds / 2).max(100);
+            let mut wrong = 0u64;
+            for _rep in 0..reps {
+                let _ = cachelito_core::invalidate_with(&sp.name, |_k| true);
+                for j in 0..2usize {
+                    rt::NEXT_TL.with(|n| n.set(Some(rt::Next { n: det_n(fi, j), ok: true, len: 4, ci: true, io: false })));
+                    let _ = corpus::CALLS[fi](j);
+                }
+                let stop = Arc::new(std::sync::atomic::AtomicBool::new(false));
+                let busy = {
+                    let (stop, name) = (stop.clone(), sp.name.clone());
+                    std::thread::spawn(move || {
+                        while !stop.load(Ordering::Acquire) {
+                            let _ = cachelito_core::invalidate_with(&name, |_k| false);
+                        }
+                    })
+                };
+                let hitter = std::thread::spawn(move || {
+                    for i in 0..40usize {
+                        let j = i % 2;
+                        rt::NEXT_TL.with(|n| n.set(Some(rt::Next { n: det_n(fi, j), ok: true, len: 4, ci: true, io: false })));
+                        let _ = corpus::CALLS[fi](j);
+                    }
+                });
+                join_all(&mut vec![hitter], "recency-under-contention", fi, &sp.name);
+                stop.store(true, Ordering::Release);
+                join_all(&mut vec![busy], "recency-under-contention", fi, &sp.name);
+                if let Some(d) = cachelito_core::verif::dump_global(&sp.name) {
+                    let p0 = d.queue.iter().position(|k| *k == k0);
+                    let p1 = d.queue.iter().position(|k| *k == k1);
+                    // the last hit was on key 1 (i = 39), the one before on key 0
+                    if !(p0.is_some() && p1.is_some() && p0 < p1) {
+                        wrong += 1;
+                    }
+                }
+            }
+            println!("HL|{}|{}|{}|{}", fi, sp.name, reps * 40, wrong);
+        }
+    }
     // concurrent RESETS (C15): k lookups, then every thread calls `stats_registry::reset(name)` at once, then (no lookup in
     // between) the counters must read 0 / 0; then k lookups again must read exactly k.  A reset that is not one atomic
     // overwrite per counter (snapshot-and-subtract, read-modify-write) lets two overlapping resets wrap a counter.
